@@ -45,6 +45,9 @@ func runVerify(ctx context.Context, opt verifyOptions, args []string) error {
 	if err != nil {
 		return err
 	}
+	// The point of this command is to verify the chunks, a store configured to
+	// not verify what is read from it would have every chunk pass
+	options.SkipVerify = false
 	s, err := desync.NewLocalStore(opt.store, options)
 	if err != nil {
 		return err
